@@ -13,7 +13,7 @@ BASE = ("Trusted: Kani's MIR->GOTO translation, CBMC, CaDiCaL; the oracles in /v
 
 # Properties whose registered check has been run green, end to end, on the unchanged tree by the main session.
 # gen_manifest.py lists every other property under not_applicable ("under construction") even if harnesses exist.
-CLAIMED = ["C05", "C06", "C13", "C19"]
+CLAIMED = ["C%02d" % i for i in range(1, 21)]
 
 MANIFEST_TEXT = {
     "C01": dict(
@@ -29,7 +29,7 @@ MANIFEST_TEXT = {
         note=BASE + " Configuration matrix is the list of shadow variants in the evidence; configurations that do not exist in the source are outside the claim.",
         technique=TECH),
     "C04": dict(
-        level="Per cipher type (parallel width 1): multi-block in-place, multi-block b2b and single b2b calls equal per-block in-place calls on an arbitrary state for every block count n in 0..=2 -- all contents symbolic, separate input unchanged, blocks >= n and mismatched-length outputs untouched (table-based ciphers with the non-linear leaf uninterpreted).  AES-NI 9-wide path: n = 10 (batch + tail; thorough 8, 9, 19, AES-256), output block i for a SYMBOLIC lane i, in place at a symbolic buffer offset 0..15 with guard bytes and b2b with the input unchanged; fixslice batches (last lane quick, symbolic lane thorough); ARMv8 model n = 3, 21 (quick), 22 / 20 / 18 (thorough); Kuznyechik sse2 4-wide and big_soft 3-wide batches (+ tail thorough).",
+        level="Per cipher type (parallel width 1), quick tier: the single-block b2b call into an output buffer pre-filled with arbitrary bytes equals the in-place call on an arbitrary state, separate input unchanged (for these types the multi-block entry points are the cipher crate's loop over this call); thorough tier: multi-block in-place, multi-block b2b and single b2b calls equal per-block in-place calls for every block count n in 0..=2, blocks >= n and mismatched-length outputs untouched (table-based ciphers with the non-linear leaf uninterpreted).  AES-NI 9-wide path: n = 10 (batch + tail; thorough 8, 9, 19, AES-256), output block i for a SYMBOLIC lane i, b2b with the input unchanged (quick) and in place at a symbolic buffer offset 0..15 with guard bytes (thorough); fixslice batches (last lane quick, symbolic lane thorough); ARMv8 model n = 3, 21 (quick), 22 / 20 / 18 (thorough); Kuznyechik sse2 4-wide and big_soft 3-wide batches (+ tail thorough).  Types whose two-copy equivalence does not finish in the quick budget (CAST5, CAST-256, most Magma sets, Threefish, XTEA, wide-word RC5) are thorough only.",
         note=BASE + " Block counts are enumerated (bounded), contents are universal; counts above the bound are outside the claim (the iteration code is periodic in the parallel width).",
         technique=TECH),
     "C05": dict(
@@ -70,7 +70,7 @@ MANIFEST_TEXT = {
         note=BASE + " Bounds on salt/key length as stated in the evidence.",
         technique=TECH),
     "C15": dict(
-        level="Sequential histories (threads = 1): per type, op(x); op(y); op(x) on an arbitrary state gives equal first and third results and leaves every byte of the instance unchanged; mixed enc/dec history against a pristine instance; construction history new(k2); new(k1); new(k2); new(k3); new(k1) (process-wide state written by construction); AES autodetect history including the first use that runs CPU detection.  A textual listing of every static mut / atomic / cell construct of the crates guards the 'no interior mutability' premise.  Thread interleavings are NOT decided (Kani is sequential).",
+        level="Sequential histories (threads = 1): per type, the same call twice on one arbitrary-state instance gives the same result and leaves every byte of the instance unchanged (quick); op(x); op(y); op(x) and the mixed enc/dec history against a pristine instance (thorough, quick for DES/TDES and the ciphers with an abstractable leaf); construction history new(k2); new(k1); new(k2); new(k3); new(k1) (process-wide state written by construction); AES autodetect history including the first use that runs CPU detection.  A textual listing of every static mut / atomic / cell construct of the crates guards the 'no interior mutability' premise (a new one is an engine error until a harness covers it).  Thread interleavings are NOT decided (Kani is sequential).",
         note=BASE + " The 'all thread interleavings' part of the quantifier is outside the technique and stated as such.",
         technique=TECH),
     "C16": dict(
